@@ -1134,3 +1134,84 @@ Proof.
   unfold solo_commits_b, solo_commits. rewrite forallb_forall, Forall_forall.
   split; intros H x Hx; apply N.eqb_eq; apply H; exact Hx.
 Qed.
+
+(** * C20_new_leader_seq as a trace predicate *)
+Lemma publish_leader c es : forall m m' evs, publish c m es = (m', evs) -> leader m' = leader m.
+Proof.
+  induction es as [|[i e] t IH]; intros m m' evs Hp; cbn [publish] in Hp; [inversion Hp; reflexivity|].
+  destruct (publish1 c m (i, e)) as [m1 o1] eqn:E1. destruct (publish c m1 t) as [m2 o2] eqn:E2.
+  inversion Hp; subst. destruct (publish1_once c _ _ _ _ _ E1) as [_ [_ [_ [Hl _]]]].
+  rewrite (IH _ _ _ E2). exact Hl.
+Qed.
+
+Lemma rstep_leader d c lg s op s' o : rstep d c lg s op = Some (s', o) ->
+  leader (mem s') = next_leader (leader (mem s)) op (obs_of s' o).
+Proof.
+  intro Hst. destruct op; cbn [rstep] in Hst; cbn [next_leader].
+  - destruct (avail s <? N.of_nat (length lg)); [|discriminate]. inversion Hst; subst. reflexivity.
+  - destruct ((1 <=? lo) && (lo <=? applied (mem s) + 1) && (hi <=? app) && (app <=? avail s)
+              && (stored (disk s) <=? app) && (lo <=? hi + 1)); [|discriminate].
+    destruct (publish c (leader_change c (mem s) lead)
+                (entries_to_apply (leader_change c (mem s) lead) lo (seg lg lo (N.to_nat (hi + 1 - lo))))) as [m1 evs] eqn:Ep.
+    inversion Hst; subst s' o. clear Hst. cbn [mem].
+    pose proof (publish_leader _ _ _ _ _ Ep) as Hl.
+    assert (Hae : leader (after_elected m1 app) = leader m1) by (unfold after_elected; destruct (justElected m1); reflexivity).
+    assert (Hlc : leader (leader_change c (mem s) lead) = match lead with Some l => l | None => leader (mem s) end).
+    { unfold leader_change. destruct lead as [l|]; [|reflexivity]. destruct (l =? leader (mem s)) eqn:E; [|reflexivity].
+      apply N.eqb_eq in E. congruence. }
+    destruct ((c_snap c <=? applied (after_elected m1 app) - snapIdx (after_elected m1 app)) &&
+              snap_guard d (after_elected m1 app) (ex s)); cbn [leader]; rewrite Hae, Hl, Hlc; destruct lead; reflexivity.
+  - destruct (queue (ex s)) as [|[i [h t]] q]; inversion Hst; subst; reflexivity.
+  - destruct (h <=? chain (ex s)); [|discriminate].
+    destruct (alookup N.eqb h (bai (mem s))); inversion Hst; subst; reflexivity.
+  - inversion Hst; subst. reflexivity.
+  - destruct (leader (mem s) =? c_id c); [inversion Hst; subst; reflexivity|].
+    destruct (k =? 0); [|discriminate]. inversion Hst; subst. reflexivity.
+  - inversion Hst; subst. reflexivity.
+Qed.
+
+Lemma rstep_leader_seq d c lg s op s' o : rstep d c lg s op = Some (s', o) ->
+  leader_seq_step (c_id c) (leader (mem s)) op (obs_of s' o).
+Proof.
+  intro Hst. destruct op; cbn [leader_seq_step]; try exact I.
+  destruct lead as [l|]; [|exact I]. intros Hl Hne.
+  destruct (new_leader_seq d c lg s lo hi app l s' o Hst Hl Hne) as [Hseq _].
+  cbn [obs_of b_st nth_error]. rewrite Hseq. reflexivity.
+Qed.
+
+Theorem leader_seq_run d c lg ops : forall s tr,
+  rrun d c lg s ops = Some tr -> leader_seq (c_id c) (leader (mem s)) ops tr.
+Proof.
+  induction ops as [|op ops IH]; intros s tr Hr; cbn [rrun] in Hr; [inversion Hr; exact I|].
+  destruct (rstep d c lg s op) as [[s' o]|] eqn:Es; [|discriminate].
+  destruct (rrun d c lg s' ops) as [tr'|] eqn:Er; [|discriminate]. inversion Hr; subst tr. clear Hr.
+  cbn [leader_seq]. split; [eapply rstep_leader_seq; exact Es|].
+  rewrite <- (rstep_leader _ _ _ _ _ _ _ Es). apply IH. exact Er.
+Qed.
+
+Theorem leader_seq_all d c lg ops tr :
+  rrun d c lg (init_sys d c) ops = Some tr -> leader_seq (c_id c) 0 ops tr.
+Proof. intro H. exact (leader_seq_run d c lg ops (init_sys d c) tr H). Qed.
+
+Lemma leader_seq_b_spec id ops : forall pl tr, leader_seq_b id pl ops tr = true <-> leader_seq id pl ops tr.
+Proof.
+  induction ops as [|op ops IH]; intros pl tr; cbn [leader_seq_b leader_seq]; [tauto|].
+  destruct tr as [|o tr]; [tauto|]. rewrite andb_true_iff, IH.
+  assert (Hs : leader_seq_step_b id pl op o = true <-> leader_seq_step id pl op o).
+  { unfold leader_seq_step_b, leader_seq_step. destruct op; try tauto. destruct lead as [l|]; [|tauto].
+    rewrite !orb_true_iff, negb_true_iff, N.eqb_neq, N.eqb_eq.
+    destruct (b_st o) as [|le r] eqn:Eb.
+    - split; [intros _ _ _; exact I | intros _; right; reflexivity].
+    - destruct (nth_error (le :: r) 6) as [x|] eqn:En.
+      + rewrite N.eqb_eq. split.
+        * intros [[H|H]|H] Hl Hne; try contradiction. subst x. reflexivity.
+        * intro H. destruct (N.eq_dec l id) as [E1|E1]; [|left; left; exact E1].
+          destruct (N.eq_dec l pl) as [E2|E2]; [left; right; exact E2|].
+          right. specialize (H E1 E2). inversion H. reflexivity.
+      + split.
+        * intros [[H|H]|H] Hl Hne; try contradiction. discriminate.
+        * intro H. destruct (N.eq_dec l id) as [E1|E1]; [|left; left; exact E1].
+          destruct (N.eq_dec l pl) as [E2|E2]; [left; right; exact E2|].
+          specialize (H E1 E2). discriminate. }
+  rewrite Hs. tauto.
+Qed.
